@@ -28,7 +28,7 @@ func init() {
 			{"C01/order-insensitive", func(c *Ctx) { c.ruleOrderInsensitive("C01/order-insensitive", "EV") }},
 		},
 		Explanation: "The validity relation itself (an infinite product of schemas and instances, arithmetic, regular expressions) is not statically decidable. Decided here are necessary clauses whose truth is visible in the code on every path: every asserting and applicator field of Schema is read in the closure of Validate (a keyword cannot lose its handler); both forms of `type` apply the integer-is-a-number rule; string lengths compared with minLength/maxLength are counts of Unicode code points and nothing derived from the byte length takes part in those decisions; minimum, maximum, exclusiveMinimum and exclusiveMaximum fail on exactly the orderings {LT}, {GT}, {LT,EQ}, {EQ,GT} of instance versus bound (finite ordering evaluation, orientation taken from the comparison's operands); the application of additionalProperties depends only on the per-schema evaluated set, never on annotation fields; presence of keywords whose empty value matters is a nil test; in-place applicators precede unevaluated*; list applicators visit every subschema; integral floats are classified exactly; numeric keywords do not depend on `type`; each reference occurrence is resolved on its own; every randomised iteration in the evaluator is order-insensitive. It does NOT decide the verdict for any particular schema/instance pair.",
-		NotDecided: []string{"the verdict for any particular schema/instance pair", "regular-expression semantics", "multipleOf arithmetic", "contains/minContains/maxContains counting", "correctness of what each handler does once it runs"},
+		NotDecided:  []string{"the verdict for any particular schema/instance pair", "regular-expression semantics", "multipleOf arithmetic", "contains/minContains/maxContains counting", "correctness of what each handler does once it runs"},
 	})
 }
 
@@ -477,8 +477,8 @@ func condIsFalsyFlag(c *Ctx, cond ssa.Value) bool {
 }
 
 // wrappers that run rules of other properties under a C01 rule id
-func ruleC07OrderAs(c *Ctx, rule string)       { runAs(c, rule, "C07/order", ruleC07Order) }
-func ruleC07VisitsAllAs(c *Ctx, rule string)   { runAs(c, rule, "C07/visits-all", ruleC07VisitsAll) }
+func ruleC07OrderAs(c *Ctx, rule string)     { runAs(c, rule, "C07/order", ruleC07Order) }
+func ruleC07VisitsAllAs(c *Ctx, rule string) { runAs(c, rule, "C07/visits-all", ruleC07VisitsAll) }
 func ruleC03RefPerOccurrenceAs(c *Ctx, rule string) {
 	runAs(c, rule, "C03/ref-per-occurrence", ruleC03RefPerOccurrence)
 }
